@@ -26,7 +26,7 @@ RULE = ('A: BFS over operation histories (insert/overwrite/pop/copy/clear/invali
         'map holds >=2 names sharing a suffix or the spelling pair differs.')
 ASSUMPTIONS = ['name alphabet {a,b,c} with <=3 components stored and <=4 queried; at most 2 live map objects',
                'reference model: flat dict + brute-force suffix test']
-WITNESSES = ['unknown_skipped_silently', 'ambiguous', 'exact_precedence', 'unknown', 'minimal_shorter_than_full', 'copy_diverged',
+WITNESSES = ['method_names_resolve_back', 'unknown_skipped_silently', 'ambiguous', 'exact_precedence', 'unknown', 'minimal_shorter_than_full', 'copy_diverged',
              'pop_pruned', 'spelling_pair_same_key', 'hook_conflict_detected', 'api_ambiguous_rejected']
 
 POOL_Q = ['b', 'a.b', 'c.a.b', 'c.b', 'a.a', 'b.a', 'a.c.b', 'c', 'a.B']
@@ -588,8 +588,55 @@ def _run_b_chunk(chunk):
   return res
 
 
+# ------------------------------------------------------ names reported for methods of same-named classes resolve back
+def run_method_names(res):
+  case = ['method_names']
+  harness.hard_reset()
+  res.case(tuple(case), True)
+  classes = {}
+  for modname in ('c08east.jobs', 'c08west.jobs', 'c08west.other'):
+    ns = {}
+    exec('class Net:\n  def __init__(self, n=None):\n    self.n = n\n'  # pylint: disable=exec-used
+         '  def build(self, units=None):\n    return units\n  def fit(self, steps=None):\n    return steps\n', ns)
+    N = ns['Net']
+    N.__module__ = modname
+    N.build.__module__ = N.fit.__module__ = modname
+    gin.register(N.build)
+    if modname != 'c08west.other':
+      gin.register(N.fit)
+    gin.register(N)
+    classes[modname] = N
+  want = {}
+  for i, modname in enumerate(classes):
+    gin.bind_parameter(modname + '.Net.build.units', i)
+    want[('', modname + '.Net.build')] = {'units': i}
+  gin.bind_parameter('c08east.jobs.Net.fit.steps', 7)
+  want[('', 'c08east.jobs.Net.fit')] = {'steps': 7}
+  problems = []
+  for sel in [k[1] for k in want]:
+    shortest = cfg._REGISTRY.minimal_selector(sel)
+    back = cfg._REGISTRY.matching_selectors(shortest)
+    if back != [sel]:
+      problems.append('minimal_selector(%r) = %r resolves to %r' % (sel, shortest, back))
+  try:
+    text = gin.config_str()
+    gin.clear_config()
+    gin.parse_config(text)
+    got = {k: dict(v) for k, v in cfg._CONFIG.items()}
+    if got != want:
+      problems.append('config_str names resolve to %r, expected %r\n%s' % (got, want, text))
+  except Exception as e:  # pylint: disable=broad-except
+    problems.append('the names config_str reports do not resolve back: %r' % (e,))
+  if problems:
+    res.violation('minimal_selector', '%r: %s' % (case, '; '.join(problems)), case)
+  else:
+    res.w('method_names_resolve_back')
+  harness.hard_reset()
+
+
 def run(ctx):
   res = core.Result()
+  run_method_names(res)
   run_a(ctx, res)
   cases = list(b_cases()) + list(hook_cases())
   res.sample({'api_case': cases[len(cases) // 3]})
@@ -604,7 +651,9 @@ def run(ctx):
 def replay(obj):
   if obj and isinstance(obj[0], str):
     res = core.Result()
-    if obj[0] in ('hook', 'const', 'macro_spelling'):
+    if obj[0] == 'method_names':
+      run_method_names(res)
+    elif obj[0] in ('hook', 'const', 'macro_spelling'):
       run_hook_case(obj, res)
     else:
       run_b_case(obj, res)
